@@ -23,6 +23,8 @@
   inline_real_eq_runtime_partial
   guard_leaves_only_cyclic
   inline_seq_eq_runtime_partial
+  failed_render_keeps_cache_sound
+  inline_seq_after_failure_partial
 -/
 import Genshi.Lemmas.InclErase
 import Genshi.Lemmas.InclGuard
@@ -138,6 +140,94 @@ theorem inline_seq_eq_runtime_partial (T : List Name) (files : Files) (hH : inH 
           | err e => rfl
           | ok r => simp only; rw [hx] at this; exact this
       simp only [renderSeq]
+      rw [h.1, ih _ h.2, hrt]
+  exact key qs [] (by intro n b h; simp at h)
+
+/-- replaying any list of loads keeps the cache a cache of prepared forms -/
+theorem replayLoads_inv {T : List Name} {files : Files} (hH : inH T files = true) :
+    ∀ (ls : List Load) (c : Cache), CacheInv T files c → CacheInv T files (replayLoads files c ls)
+  | [], c, hc => hc
+  | l :: ls, c, hc => by
+    have hl := loadOK_of_inH hH l.1 l.2 c hc
+    simp only [replayLoads]
+    cases hraw : loadRaw files l.1 l.2 with
+    | fuel => simp [hraw] at hl
+    | err e =>
+      simp only [hraw] at hl
+      rw [hl]
+      exact replayLoads_inv hH ls c hc
+    | ok body =>
+      simp only [hraw] at hl
+      obtain ⟨body', c', hli, _, hc'⟩ := hl
+      rw [hli]
+      exact replayLoads_inv hH ls c' hc'
+
+/-- **the loader after a failed render.**  Whatever the render did before it raised (an undefined name, a
+missing include without fallback, the recursion limit): the templates it loaded and prepared on the way
+stay in the loader, and every one of them is a prepared form of its file — the invariant under which
+`renderOn_eq` answers the next request like run-time mode -/
+theorem failed_render_keeps_cache_sound {T : List Name} {files : Files} (hH : inH T files = true) (fuel : Nat)
+    (c : Cache) (hc : CacheInv T files c) (q : Req) :
+    CacheInv T files (cacheAfterFail .inlineM files fuel c q) := by
+  obtain ⟨entry, kind, data⟩ := q
+  have hl := loadOK_of_inH hH entry kind c hc
+  simp only [cacheAfterFail, loadT]
+  cases hraw : loadRaw files entry kind with
+  | fuel => simp [hraw] at hl
+  | err e =>
+    simp only [hraw] at hl
+    simp [hl, hc]
+  | ok body =>
+    simp only [hraw] at hl
+    obtain ⟨body', c', hli, _, hc'⟩ := hl
+    simp only [hli, Res.map_ok]
+    exact replayLoads_inv hH _ c' hc'
+
+theorem renderOnF_eq {T : List Name} {files : Files} (hH : inH T files = true) (fuel : Nat)
+    (c : Cache) (hc : CacheInv T files c) (q : Req) :
+    (renderOnF .inlineM files fuel c q).1 = (renderOn .runtime files fuel [] q).1 ∧
+    CacheInv T files (renderOnF .inlineM files fuel c q).2 := by
+  have h := renderOn_eq hH fuel c hc q
+  have hf := failed_render_keeps_cache_sound hH fuel c hc q
+  unfold renderOnF
+  cases hx : (renderOn .inlineM files fuel c q).1 with
+  | ok evs => exact ⟨by rw [← h.1, hx], h.2⟩
+  | err e => exact ⟨by rw [← h.1, hx], hf⟩
+  | fuel => exact ⟨by rw [← h.1, hx], hf⟩
+
+/-
+  Full statement (false, see the witnesses): for every file set, any number of renders through one loader,
+  failed ones included, answer in inline mode like in run-time mode.  Proved under `inH`.
+-/
+/-- any number of renders through one loader, **failed ones included**: the loader keeps what a failed
+render had loaded and prepared (`renderSeqF`), and inline mode still answers every later request like
+run-time mode does -/
+theorem inline_seq_after_failure_partial (T : List Name) (files : Files) (hH : inH T files = true)
+    (fuel : Nat) (qs : List Req) :
+    (renderSeqF .inlineM files fuel [] qs).map (·.1) = renderSeq .runtime files fuel [] qs := by
+  have hrt : ∀ q, (renderOn .runtime files fuel [] q).2 = [] := by
+    intro q
+    obtain ⟨entry, kind, data⟩ := q
+    simp only [renderOn, loadT]
+    cases hraw : loadRaw files entry kind with
+    | fuel => rfl
+    | err e => rfl
+    | ok body =>
+      simp only [Res.map_ok, Res.bind_ok]
+      have := render_keeps_cache_runtime files fuel (.ofKind kind) body { St.init data with cache := [] }
+      cases hx : renderL .runtime files (render .runtime files fuel) (Rng.ofKind kind) body { St.init data with cache := [] } with
+      | fuel => rfl
+      | err e => rfl
+      | ok r => simp only; rw [hx] at this; exact this
+  have key : ∀ (qs : List Req) (c : Cache), CacheInv T files c →
+      (renderSeqF .inlineM files fuel c qs).map (·.1) = renderSeq .runtime files fuel [] qs := by
+    intro qs
+    induction qs with
+    | nil => intro c _; rfl
+    | cons q qs ih =>
+      intro c hc
+      have h := renderOnF_eq hH fuel c hc q
+      simp only [renderSeqF, renderSeq, List.map_cons]
       rw [h.1, ih _ h.2, hrt]
   exact key qs [] (by intro n b h; simp at h)
 
@@ -466,6 +556,28 @@ example : renderInlineReal exFiles nA .markup exData 2 = renderRuntime exFiles n
 fragment (no matchable elements, no macro calls) and a text template are included by name — inside
 the hypothesis although the includes sit in a zone -/
 def nLeaf : Name := ['l', 'e', 'a', 'f', '.', 'h', 't', 'm', 'l']
+/-- `a.html` = `<d><xi:include href="${h0}"/>${u0}</d>` (fails when `u0` is undefined, after the include was
+    loaded), `b.html` = `<e><xi:include href="c.html"/></e>`, `c.html` = `C` -/
+def exFail : Files :=
+  [[(nA, ⟨.markup, some [.elem ['d'] [.include (.dyn [.var ['h', '0']]) .markup false [] nA, .var ['u', '0']]]⟩),
+    (nB, ⟨.markup, some [.elem ['e'] [.include (.static ['c', '.', 'h', 't', 'm', 'l']) .markup false [] nB]]⟩),
+    (['c', '.', 'h', 't', 'm', 'l'], ⟨.markup, some [.text ['C']]⟩)]]
+
+def exFailReqs : List Req :=
+  [(nA, .markup, [(['h', '0'], .str nB)]),            -- raises UndefinedError after b.html (and c.html) were loaded
+   (nB, .markup, []),                                 -- served from what the failed render left behind
+   (nA, .markup, [(['h', '0'], .str nB), (['u', '0'], .str ['!'])])]
+
+example : inH (matchTags exFail) exFail = true := by decide +kernel
+/-- the failed render leaves `a.html`, `b.html` and (inlined into `b.html`) `c.html` prepared in the loader;
+    the model that forgets them (`renderSeq`) and the faithful one answer alike, as the theorem says -/
+example : (renderSeqF .inlineM exFail 6 [] exFailReqs).map (fun x => (x.1, x.2.map (·.1))) =
+    [(.err .undefined, [nB, ['c', '.', 'h', 't', 'm', 'l'], nA]),
+     (.ok [.start ['e'], .text ['C'], .stop ['e']], [nB, ['c', '.', 'h', 't', 'm', 'l'], nA]),
+     (.ok [.start ['d'], .start ['e'], .text ['C'], .stop ['e'], .text ['!'], .stop ['d']],
+      [nB, ['c', '.', 'h', 't', 'm', 'l'], nA])] := by decide +kernel
+example : (renderOn .inlineM exFail 6 [] (nA, .markup, [(['h', '0'], .str nB)])).2 = [] := by decide +kernel
+
 def exLayout : Files :=
   [[(nA, ⟨.markup, some [.elem ['d'] [
         .matchT ['x'] [.elem ['w'] [.select]],
